@@ -873,31 +873,38 @@ theorem mapFrom_length {β γ : Type} (f : Nat → β → γ) (s : Nat) (x : Lis
   | nil => rfl
   | cons y ys ih => simp [mapFrom, ih]
 
-theorem topValue_eq (D : Dims) (A : List Bool) (b : Box) (hv : b.Valid D) (deck : Arr α) (li : Nat) :
-    topValueImpl (indexList D A b) deck li = topValueRef D A b deck li := by
-  have hs := indexList_spec D A b hv
+theorem mem_globalIndexList (D : Dims) (b : Box) (e : Idx) :
+    e ∈ globalIndexList D b ↔ ∃ d, d < b.size ∧ e = ⟨b.globalOf D d, b.globalOf D d, d⟩ := by
+  unfold globalIndexList
+  simp only [List.mem_map, List.mem_range]
+  constructor
+  · rintro ⟨d, hd, rfl⟩; exact ⟨d, hd, rfl⟩
+  · rintro ⟨d, hd, rfl⟩; exact ⟨d, hd, rfl⟩
+
+theorem topValue_eq (D : Dims) (b : Box) (hv : b.Valid D) (deck : Arr α) (li : Nat) :
+    topValueImpl (globalIndexList D b) deck li = topValueRef D b deck li := by
   unfold topValueImpl topValueRef
-  cases hf : (indexList D A b).find? (fun e => e.g == li) with
+  cases hf : (globalIndexList D b).find? (fun e => e.g == li) with
   | some e =>
     have hm := List.mem_of_find?_eq_some hf
     have hg : e.g = li := by
       have := List.find?_some hf
       simpa using this
-    obtain ⟨hact, hsel, _⟩ := (hs.mem e).mp hm
-    rw [hg] at hact hsel
-    simp [hact, hsel]
+    obtain ⟨d, hd, rfl⟩ := (mem_globalIndexList D b e).mp hm
+    simp only at hg
+    have hsel := (boxSel_iff D b hv li d).mpr ⟨hd, hg⟩
+    simp [hsel]
   | none =>
     simp only
-    by_cases hact : isActive A li = true
-    · simp only [hact, if_true]
-      cases hsel : boxSel D b li with
-      | none => rfl
-      | some d =>
-        exfalso
-        have hm : (⟨li, rank A li, d⟩ : Idx) ∈ indexList D A b := (hs.mem _).mpr ⟨hact, hsel, rfl⟩
-        have := List.find?_eq_none.mp hf _ hm
-        simp at this
-    · simp [hact]
+    cases hsel : boxSel D b li with
+    | none => rfl
+    | some d =>
+      exfalso
+      obtain ⟨hd, hg⟩ := (boxSel_iff D b hv li d).mp hsel
+      have hm : (⟨b.globalOf D d, b.globalOf D d, d⟩ : Idx) ∈ globalIndexList D b :=
+        (mem_globalIndexList D b _).mpr ⟨d, hd, rfl⟩
+      have := List.find?_eq_none.mp hf _ hm
+      simp [hg] at this
 
 theorem topApply_refines (D : Dims) (A : List Bool) (b : Box) (hv : b.Valid D) (deck x : Arr α)
     (hx : x.length = A.length) :
@@ -906,7 +913,7 @@ theorem topApply_refines (D : Dims) (A : List Bool) (b : Box) (hv : b.Valid D) (
   rw [compress_mapFrom _ A 0 x hx]
   congr 1
   funext g c
-  rw [topValue_eq D A b hv]
+  rw [topValue_eq D b hv]
 
 
 end TopL
